@@ -188,7 +188,7 @@ func C16(op Opts) *Out {
 		{txscript.OP_PUSHDATA2, 0xff}, // truncated pushdata2
 	}
 	maxItems := 4
-	if op.Tier == "thorough" {
+	if op.Tier != "quick" {
 		maxItems = 5
 	}
 	idx := 0
